@@ -6,8 +6,8 @@ PROP = {
     "shards": {"quick": 8, "thorough": 16},
     "rule": "a case is non-trivial when n >= 3 and (for eigen cases) at least one eigenvalue is negative or the matrix is structured (diagonal, 2x2-block diagonal whose (1,-1) eigenvectors "
             "are orthogonal to the all-ones start vector, direct sum of rotated blocks = eigenvectors with exact zero components); distinct = hash of the entries. Sizes 1..7 cyclically. "
-            "QR: dense Gaussian, graded U diag V^T with kappa up to 1e6, sparse diagonally dominant with zeros in the first column. Symmetric: Q diag(lambda) Q^T with Haar Q, "
-            "|lambda_(i+1)/lambda_i| in [0.1,0.8] of either sign and random order, overall scale 1e-3..1e3, plus the structured kinds and an all-ones eigenvector",
+            "QR: dense Gaussian, graded U diag V^T with kappa up to 1e6, sparse diagonally dominant with zeros in the first column, row-shifted sparse matrices with M[0][0] = 0, block-diagonal matrices whose 2x2 blocks start with an exact zero. Symmetric: Q diag(lambda) Q^T with Haar Q, "
+            "|lambda_(i+1)/lambda_i| in [0.1,0.8] of either sign and random order, overall scale 1e-3..1e3, plus the structured kinds (incl. see-saw blocks [[0,m],[m,M]] with exact zeros on the diagonal) and an all-ones eigenvector",
     "floors": {"quick": {"cases": 14000, "distinct_nontrivial": 5000, "ticks": {"Eigenvalues.sweep": 200000, "Eigenvector.iteration": 50000},
                          "clauses": {"qr-product-is-the-matrix": 7000, "q-is-orthogonal": 14000, "r-is-upper-triangular": 7000, "eigenvalues-match-jacobi-reference": 6000,
                                      "eigenpair-satisfies-Mv=lambda-v": 25000, "eigenvector-has-unit-norm": 25000, "eigenvectors-equals-eigensystem-second": 6000,
